@@ -328,6 +328,53 @@ pub fn exec(line: &str) -> String {
     eng_reader::exec(line)
 }
 
+
+/// amplification family (C09): `k` records of zero bit size next to one dense 1-bit stream of `nbytes` bytes
+/// in a single data packet — before the fix "constant records are not queued" one `next()` allocated
+/// k x 8·nbytes x 16 bytes
+pub fn amplification_file(k: usize, nbytes: usize) -> Vec<u8> {
+    let npts = nbytes * 8;
+    let mut recs = String::new();
+    for i in 0..k {
+        recs.push_str(&format!("<x:c{i} type=\"Integer\" minimum=\"7\" maximum=\"7\">7</x:c{i}>\n"));
+    }
+    let xml = format!(
+        "<?xml version=\"1.0\" encoding=\"UTF-8\"?>\n<e57Root type=\"Structure\" xmlns:x=\"urn:x\" xmlns=\"http://www.astm.org/COMMIT/E57/2010-e57-v1.0\">\n<formatName type=\"String\"><![CDATA[ASTM E57 3D Imaging Data File]]></formatName>\n<guid type=\"String\"><![CDATA[amp]]></guid>\n<versionMajor type=\"Integer\">1</versionMajor>\n<versionMinor type=\"Integer\">0</versionMinor>\n<data3D type=\"Vector\" allowHeterogeneousChildren=\"1\">\n<vectorChild type=\"Structure\">\n<guid type=\"String\"><![CDATA[pc]]></guid>\n<points type=\"CompressedVector\" fileOffset=\"48\" recordCount=\"{npts}\">\n<prototype type=\"Structure\">\n<cartesianX type=\"Integer\" minimum=\"0\" maximum=\"0\">0</cartesianX>\n<cartesianY type=\"Integer\" minimum=\"0\" maximum=\"0\">0</cartesianY>\n<cartesianZ type=\"Integer\" minimum=\"0\" maximum=\"0\">0</cartesianZ>\n<intensity type=\"Integer\" minimum=\"0\" maximum=\"1\">0</intensity>\n{recs}</prototype>\n</points>\n</vectorChild>\n</data3D>\n<images2D type=\"Vector\" allowHeterogeneousChildren=\"1\">\n</images2D>\n</e57Root>\n"
+    )
+    .into_bytes();
+    let nstreams = k + 4;
+    let mut pkt: Vec<u8> = vec![1, 0];
+    let plen = 6 + 2 * nstreams + nbytes;
+    let pad = (4 - plen % 4) % 4;
+    pkt.extend_from_slice(&((plen + pad - 1) as u16).to_le_bytes());
+    pkt.extend_from_slice(&(nstreams as u16).to_le_bytes());
+    for i in 0..nstreams {
+        pkt.extend_from_slice(&(if i == 3 { nbytes as u16 } else { 0 }).to_le_bytes());
+    }
+    pkt.extend(std::iter::repeat(0xAAu8).take(nbytes));
+    pkt.extend(std::iter::repeat(0u8).take(pad));
+    let l2p = |n: usize| n + 4 * (n / 1020);
+    let mut logical: Vec<u8> = vec![0; 48];
+    logical.push(1);
+    logical.extend_from_slice(&[0; 7]);
+    logical.extend_from_slice(&((32 + pkt.len()) as u64).to_le_bytes());
+    logical.extend_from_slice(&(l2p(48 + 32) as u64).to_le_bytes());
+    logical.extend_from_slice(&0u64.to_le_bytes());
+    logical.extend_from_slice(&pkt);
+    let xml_start = logical.len();
+    logical.extend_from_slice(&xml);
+    let pages = (logical.len() + 1019) / 1020;
+    logical.resize(pages * 1020, 0);
+    logical[0..8].copy_from_slice(b"ASTM-E57");
+    logical[8..12].copy_from_slice(&1u32.to_le_bytes());
+    logical[12..16].copy_from_slice(&0u32.to_le_bytes());
+    logical[16..24].copy_from_slice(&((pages * 1024) as u64).to_le_bytes());
+    logical[24..32].copy_from_slice(&(l2p(xml_start) as u64).to_le_bytes());
+    logical[32..40].copy_from_slice(&(xml.len() as u64).to_le_bytes());
+    logical[40..48].copy_from_slice(&1024u64.to_le_bytes());
+    ref_pages(&logical)
+}
+
 pub fn generate(sink: &mut Sink, seed: u64, thorough: bool) {
     let mut rng = Rng::new(seed ^ 0x3A7A);
     // sources
@@ -350,10 +397,17 @@ pub fn generate(sink: &mut Sink, seed: u64, thorough: bool) {
         sources.push(b);
     }
     let n = if thorough { 20000 } else { 1500 };
-    for i in 0..n {
-        let src = rng.pick(&sources).clone();
-        let (mut file, mut kind) = mutate(&mut rng, &src);
-        if rng.chance(1, 5) && file.len() >= 48 {
+    // amplification family: many constant records next to one dense bit stream (see `amplification_file`)
+    let amps: Vec<(usize, usize)> = if thorough { vec![(120, 20000), (300, 8000), (600, 30000), (40, 60000), (1000, 4000)] } else { vec![(120, 20000), (300, 8000)] };
+    for i in 0..n + amps.len() {
+        let (mut file, mut kind) = if i >= n {
+            let (k, nb) = amps[i - n];
+            (amplification_file(k, nb), "amplification")
+        } else {
+            let src = rng.pick(&sources).clone();
+            mutate(&mut rng, &src)
+        };
+        if i < n && rng.chance(1, 5) && file.len() >= 48 {
             // a second mutation on top
             let (f2, k2) = mutate(&mut rng, &file);
             if f2.len() >= 48 || k2 == "truncated" {
